@@ -334,7 +334,8 @@ def defect(draw, units, ctx):
     """Inject one defect (mutates and returns units, name)."""
     kind = draw(st.sampled_from(["swap", "delete", "dup", "insert", "next", "prev", "picnum", "version", "level", "variant",
                                  "alien", "fragshape", "drop_eos", "next_zero_nonpic", "interleave_pic", "restart_frag",
-                                 "interleave_pic", "restart_frag", "drop_last_picture", "frag_xy", "frag_xy"]))
+                                 "interleave_pic", "restart_frag", "drop_last_picture", "frag_xy", "frag_xy", "version_plus_one",
+                                 "version_plus_one"]))
     n = len(units)
     i = draw(st.integers(0, n - 1))
     j = draw(st.integers(0, n - 1))
@@ -386,6 +387,11 @@ def defect(draw, units, ctx):
             else:
                 for x in targets:
                     x["variant"] = 1 - x["variant"]
+    elif kind == "version_plus_one":
+        # every header of the sequence declares one version more than it had (too high unless the sequence is empty)
+        for x in units:
+            if x["kind"] == "SH":
+                x["version"] = min(4, x["version"] + 1)
     elif kind == "alien":
         cands = [x for x in units if x["kind"] in ("PIC", "F0", "FN")]
         if cands:
